@@ -25,6 +25,10 @@ CHECKS = {
          "Seeded random exploration biased to publication and activation: exact re-publications, in-batch duplicates, bad/foreign signatures, unfunded parties, foreign providers, both activation paths with repeated ids, foreign miner, short-lived sectors, late activation, wrong piece, racing cron/settlement at the start epoch; a deal accepted or activated although the protocol forbids it is a violation; ids must be sequential and never reused; a deal is activated at most once; time-outs must refund the client and burn the provider collateral, never before the start epoch and certainly by the tick at the processing epoch.",
          "Trusted: as C06. Re-publication of a proposal identical to a live, already activated deal is treated as a grey zone (model mirrors the code; history abandoned on disagreement).",
          "§3 C08"),
+ "C09": ("property-based testing (proptest, stateful op sequences) with token/allocation ledger equations recomputed from the state tree",
+         "Seeded random exploration of Fil+ histories (verifier add/remove via the root multisig, grants at/over the allowance, datacap transfers with allocation/extension requests at and beyond policy limits and with mismatching amounts, claim batches sent as the real miner actors with repeated/foreign/mismatched/expired entries and all-or-nothing, expired-allocation/claim removal, term extensions, signed datacap removal with good/stale/garbage signatures, holder transfers and burns, epoch jumps); after every message: supply == sum of balances, per-holder balance deltas and supply delta equal what the operation entitles (mint - new allocations - extension spend + refunds - destroys - burns - claimed sizes), registry balance == sum of open allocation sizes, every allocation ends exactly once (claimed by its provider with matching data within expiration/term, or refunded at/after expiration), ids never reused, claim term_max never decreases, claims vanish only after expiry.",
+         "Trusted: SimVM semantics; ClaimAllocations sent as the miner actors by implicit messages; fake signer-bound signatures. Market-mediated allocations (verified deals) are not generated in this engine yet.",
+         "§3 C09"),
 }
 PENDING_REASON = "check not built yet in this session (engine planned in DESIGN.md §3); not claimed until it runs silently on the unchanged tree and kills its mutants"
 
